@@ -700,9 +700,9 @@ def run_tree_age(pt, ctx, b):
 
 
 def chunk_step(n, layer):
-    if n <= 6:
+    if n <= 5:
         return 1000
-    return {7: 44, 8: 36, 9: 30, 10: 26, 11: 22}.get(n, 20)
+    return {6: 14, 7: 11, 8: 18, 9: 30, 10: 26}.get(n, 20)
 
 
 def chunks(tier):
@@ -729,10 +729,15 @@ def run_chunk(chunk, ctx):
     if chunk["layer"] == "iter":
         pt = trees[chunk["lo"]]
         env = Env(pt)
-        ctx.sample({"tree": pt_str(pt), "nodes": env.n, "starts": env.n + 1,
-                    "preorder_from_seed": env.pre(0), "leaves": env.leaves(0),
+        s = env.n // 2
+        fd = ["depth", 1]
+        ctx.sample({"tree": pt_str(pt), "nodes (numbered in pre-order)": env.n, "starts": env.n + 1,
                     "filters_at_tree_level": len(family(env, None, b)),
-                    "bracket_sequence": ["%s%d" % (k[0], i) for k, i in env.brackets(0)]}, 1)
+                    "library_postorder_from_seed": invoke(env, "Tree", None, "postorder_node_iter", {}, None)[1],
+                    "library_levelorder_from_node_%d" % s: invoke(env, "Node", s, "levelorder_iter", {}, None)[1],
+                    "library_internal_postorder_edges_without_seed_filter_odd_depth":
+                        invoke(env, "Tree", None, "postorder_internal_edge_iter", {"exclude_seed_edge": True}, filter_set(env, fd))[1],
+                    "reference_bracket_sequence": ["%s%d" % (k[0], i) for k, i in env.brackets(0)]}, 1)
     return None
 
 
